@@ -20,6 +20,7 @@ import Verif.Model.Constraints
   * `v4mapped_refuted`, `leadingdot_refuted`   divergences of the matchers that remain
   * `validate_total`        no name makes the engine abort on subtrees a parsed certificate can carry
   * `all_paths`             the three functions that reach the CAS validate first (source-derived table)
+  * `checked_is_signed`     … and nothing touches the template between that check and the CAS call
   * `divergence_only_malformed`, `unparsable_dns_refuted`   O1: engine and verifier part only on malformed names
 -/
 namespace Verif.Constraints
@@ -1144,5 +1145,76 @@ example : ∀ l ∈ okChain, LevelWF l := by
     exact ⟨by intro c hc; simp at hc <;> (try subst hc) <;> decide,
            by intro c hc; simp at hc, by intro c hc; simp at hc,
            by intro c hc; simp at hc <;> (try subst hc) <;> decide⟩
+
+/-! ## 12. What is checked is what is signed -/
+
+/-- **checked_is_signed**: in each of the three functions that reach the CAS, the variable passed
+    as `Template:` is defined, changed (field assignments, modifiers, validators, enforcers),
+    then put through the checked constraints validation, and after that only read-only calls
+    see it before the CAS call: no name is added or rewritten after the check. Table re-derived
+    from the source on every run. -/
+theorem checked_is_signed :
+    (∀ p ∈ templatePaths, sealed p.2 = true) ∧
+    templatePaths.map (·.1) = ["GetTLSCertificate", "renewContext", "signX509"] := by decide
+
+/-- meaning of `sealed`: the list splits as `… check, mid…, cas …` with only read-only calls in `mid` -/
+theorem sealedGo_spec (l : List TStep) (ok : Bool) (h : sealedGo ok l = true) :
+    (ok = true ∧ ∃ mid r post, l = mid ++ .cas r :: post ∧ ∀ st ∈ mid, st.readOnly = true) ∨
+    (∃ pre g mid r post, l = pre ++ .check g :: mid ++ .cas r :: post ∧ ∀ st ∈ mid, st.readOnly = true) := by
+  induction l generalizing ok with
+  | nil => simp [sealedGo] at h
+  | cons a as ih =>
+    cases a with
+    | cas r =>
+      simp [sealedGo] at h
+      exact .inl ⟨h, [], r, as, rfl, by simp⟩
+    | check g =>
+      simp [sealedGo] at h
+      right
+      rcases ih true h with ⟨_, mid, r, post, e, hm⟩ | ⟨pre, g', mid, r, post, e, hm⟩
+      · exact ⟨[], g, mid, r, post, by simp [e], hm⟩
+      · exact ⟨.check g :: pre, g', mid, r, post, by simp [e], hm⟩
+    | define =>
+      simp [sealedGo, TStep.readOnly] at h
+      right
+      rcases ih false h with ⟨hk, _⟩ | ⟨pre, g', mid, r, post, e, hm⟩
+      · cases hk
+      · exact ⟨.define :: pre, g', mid, r, post, by simp [e], hm⟩
+    | assign f =>
+      simp [sealedGo, TStep.readOnly] at h
+      right
+      rcases ih false h with ⟨hk, _⟩ | ⟨pre, g', mid, r, post, e, hm⟩
+      · cases hk
+      · exact ⟨.assign f :: pre, g', mid, r, post, by simp [e], hm⟩
+    | call n =>
+      unfold sealedGo at h
+      cases hr : (TStep.call n).readOnly
+      · simp [hr] at h
+        right
+        rcases ih false h with ⟨hk, _⟩ | ⟨pre, g', mid, r, post, e, hm⟩
+        · cases hk
+        · exact ⟨.call n :: pre, g', mid, r, post, by simp [e], hm⟩
+      · simp [hr] at h
+        rcases ih ok h with ⟨hk, mid, r, post, e, hm⟩ | ⟨pre, g', mid, r, post, e, hm⟩
+        · left
+          refine ⟨hk, .call n :: mid, r, post, by simp [e], ?_⟩
+          intro st hst
+          cases hst with
+          | head => exact hr
+          | tail _ h' => exact hm st h'
+        · right
+          exact ⟨.call n :: pre, g', mid, r, post, by simp [e], hm⟩
+
+theorem sealed_spec (l : List TStep) (h : sealed l = true) :
+    ∃ pre g mid r post, l = pre ++ .check g :: mid ++ .cas r :: post ∧ ∀ st ∈ mid, st.readOnly = true := by
+  rcases sealedGo_spec l false h with ⟨hk, _⟩ | h'
+  · cases hk
+  · exact h'
+
+/-- the order red-team seed out3/C05/1 produced (gate before the enforcers) is not sealed -/
+example : sealed [.define, .call "Modify", .call "Modify", .call "Valid", .check true, .call "Enforce",
+    .call "Enforce", .call "callAuthorizingWebhooksX509", .cas false] = false := by decide
+/-- a field assignment after the check is not sealed either -/
+example : sealed [.define, .check false, .assign "DNSNames", .cas false] = false := by decide
 
 end Verif.Constraints
